@@ -49,7 +49,7 @@ fn derive(c: &Case) -> (Circ, Circ, &'static str) {
         one.gates.first().cloned()
     };
     let at = |len: usize| idx(c.pos, len + 1);
-    match c.relation % 12 {
+    match c.relation % 13 {
         0 => {
             let mut bs = c.b.clone();
             bs.n = a.n;
@@ -122,6 +122,23 @@ fn derive(c: &Case) -> (Circ, Circ, &'static str) {
             }
             (a, b, "global-phase-minus-one")
         }
+        12 => {
+            // a global phase far below any natural phase but far above rounding: e^{i pi/2^k},
+            // k = 17..26 (4.7e-8 .. 2.4e-5 rad), as Rz X Rz X on one qubit
+            let mut b = a.clone();
+            let p = at(b.gates.len());
+            let q = idx(c.pos.wrapping_mul(31), a.n);
+            let k = 17 + (c.pos as i64 % 10);
+            for g in [
+                MGate::new(GK::X, vec![q]),
+                MGate::ph(GK::Rz, vec![q], (1, 1i64 << k)),
+                MGate::new(GK::X, vec![q]),
+                MGate::ph(GK::Rz, vec![q], (1, 1i64 << k)),
+            ] {
+                b.gates.insert(p, g);
+            }
+            (a, b, "tiny-global-phase")
+        }
         9 => {
             // Hadamard on a wire at the end
             let mut b = a.clone();
@@ -182,9 +199,9 @@ fn truth(a: &Circ, b: &Circ) -> TruthPair {
         let ta = csim::simulate::<C64>(a).expect("sim").data;
         let tb = csim::simulate::<C64>(b).expect("sim").data;
         let eq_tight = tensors_close(&ta, &tb, 1e-10, 1e-10).is_ok();
-        let eq_loose = tensors_close(&ta, &tb, 1e-5, 1e-5).is_ok();
+        let eq_loose = tensors_close(&ta, &tb, 3e-8, 3e-8).is_ok();
         let pr_tight = proportional_close(&ta, &tb, 1e-10);
-        let pr_loose = proportional_close(&ta, &tb, 1e-5);
+        let pr_loose = proportional_close(&ta, &tb, 3e-8);
         TruthPair {
             same_arity: true,
             equal: eq_tight,
@@ -252,6 +269,7 @@ fn check(c: &Case, obs: &mut Obs) -> Result<(), String> {
         "one-extra-gate" => "rel:one-extra-gate",
         "one-gate-removed" => "rel:one-gate-removed",
         "global-phase-minus-one" => "rel:global-phase",
+        "tiny-global-phase" => "rel:tiny-global-phase",
         "hadamard-on-wire" => "rel:hadamard-on-wire",
         "wire-permutation" => "rel:wire-permutation",
         _ => "rel:different-arity",
@@ -343,7 +361,7 @@ pub fn def(ctx: &Ctx) -> PropertyDef {
             };
             (
                 circ_spec(p.clone()),
-                0u8..12,
+                0u8..13,
                 any::<u16>(),
                 crate::gen::circ::gate_spec(unitary_kinds(), pal, 0),
                 circ_spec(CircParams {
@@ -364,7 +382,7 @@ pub fn def(ctx: &Ctx) -> PropertyDef {
     };
     PropertyDef {
         id: "C12",
-        rule: "pairs of unitary circuits: independent; equal by construction (copy, re-extraction, inserted cancelling pair, commuted disjoint gates, basic-gate expansion, swap as three CNOTs); differing by one gate, by a global phase -1 (XZXZ), by a Hadamard on a wire, by a wire permutation, by arity. Truth from the harness simulator (exact equality and equality up to a scalar). equal_circuit_with_options / equal_graph_with_options (graphs optionally pre-simplified) with and without global phase: Some(true) => truth, Some(false) => not equal (or arities differ), None always allowed and counted; equal_circuit_tensor / equal_graph_tensor <=> identical tensors (exact phases). Non-trivial = a definite answer on a pair that is not syntactically identical. Distinct by hash of the case.",
+        rule: "pairs of unitary circuits: independent; equal by construction (copy, re-extraction, inserted cancelling pair, commuted disjoint gates, basic-gate expansion, swap as three CNOTs); differing by one gate, by a global phase -1 (XZXZ), by a global phase e^{i pi/2^k} with k = 17..26 (4.7e-8 .. 2.4e-5 rad; float truth is definite for differences above 3e-8 and below 1e-10, in between the pair is skipped as borderline), by a Hadamard on a wire, by a wire permutation, by arity. Truth from the harness simulator (exact equality and equality up to a scalar). equal_circuit_with_options / equal_graph_with_options (graphs optionally pre-simplified) with and without global phase: Some(true) => truth, Some(false) => not equal (or arities differ), None always allowed and counted; equal_circuit_tensor / equal_graph_tensor <=> identical tensors (exact phases). Non-trivial = a definite answer on a pair that is not syntactically identical. Distinct by hash of the case.",
         assumptions: vec![
             "harness simulator (see selftest)",
             "float pairs whose equality flips between tolerance 1e-10 and 1e-5 are skipped as borderline",
